@@ -1,5 +1,6 @@
 import Casket.Proofs.FileServe
 import Casket.Proofs.Cond
+import Casket.Proofs.FileServeSeq
 import Casket.Generated.FileServe
 /-
 C02 — Served file content stays inside the root and never includes hidden files; redirects
@@ -128,6 +129,42 @@ theorem C02_cond_model_verdict_ok (fs : FS) (site : Site) (method target ae : By
     Casket.CondSpec.verdict fs site target ae (Casket.Cond.serveCond fs site method target ae c) = "ok" :=
   Casket.CondProofs.serveCond_verdict_ok fs site method target ae c hroot hp hrd
 
+/-! ### A running site whose file system changes between requests
+
+The code keeps no state between requests, so its model under a changing file system is the
+single-request model applied to a SEQUENCE of file-system states (`FileServeSeq.run`: a script of
+requests and of changes made by others — a file replaced by write-new-and-rename, removed,
+created, hard-linked).  Every theorem above quantifies over all file-system tables, hence holds
+in each state a script reaches; the two facts that need a proof are that "the root is a
+directory" survives the changes and that the sequence judge is the single-request judge applied
+to each answer with the state of its own moment. -/
+
+open Casket.FileServeSeq Casket.FileServeSeqSpec Casket.FileServeSeqProofs in
+/-- None of the modelled changes (write/replace, remove, hard-link of regular files) touches a
+directory: a site root that is a directory stays one in every state of every script. -/
+theorem C02_changing_fs_root_stays_dir (site : Site) (steps : List Step) (fs : FS)
+    (h : RootDir fs site) : ∀ fs' ∈ states fs steps, RootIsDir fs' site :=
+  fun fs' hm => (rootDir_states steps fs h fs' hm).rootIsDir
+
+open Casket.FileServeSeq Casket.FileServeSeqSpec Casket.FileServeSeqProofs in
+/-- Statelessness of the model made explicit: every answer of a script is the single-request
+model's answer to one of the script's requests on one of the states the script goes through —
+nothing else (no earlier request, no earlier state) enters. -/
+theorem C02_changing_fs_answers_per_state (site : Site) (steps : List Step) (fs : FS) :
+    ∀ r ∈ run site fs steps, ∃ fs' ∈ states fs steps, ∃ m t ae,
+      Step.get m t ae ∈ steps ∧ r = serve fs' site m t ae :=
+  run_mem_states site steps fs
+
+open Casket.FileServeSeq Casket.FileServeSeqSpec Casket.FileServeSeqProofs in
+/-- The judged predicate for scripts (`verdictSeq`: each observed answer must pass
+`FileServeSpec.verdict` against the file system as it is WHEN THE REQUEST IS SERVED — in
+particular the hidden file is the one the hide-list path names at that moment) is met by the
+model for every site, every initial file system whose root is a directory and every script. -/
+theorem C02_seq_model_verdict_ok (fs : FS) (site : Site) (steps : List Step)
+    (hroot : NormalSegs site.root) (hp : NormalPrefix site.pathPrefix) (hrd : RootDir fs site) :
+    verdictSeq site 0 fs steps (run site fs steps) = "ok" :=
+  run_verdict_ok site steps fs 0 hroot hp hrd
+
 /-- The encodings and index pages the model uses by default are the lists in fileserver.go
 (regenerated on every run): three encodings whose extensions start with a dot, six index names
 without a slash. -/
@@ -175,5 +212,28 @@ example : Casket.Cond.serveCond exFS exSite mGET (b! "/a") (b! "gzip")
     { inm := [], ims := none, range := some (.fromTo 0 3), explored := false } = .part 3 (some (b! "gzip")) 2 0 3 := by decide
 example : Casket.Cond.serveCond exFS exSite mGET (b! "/a") []
     { inm := [.strong 3], ims := some (some 199), range := some (.fromOn 99), explored := false } = .unsatisfiable (some 2) := by decide
+
+/-- (tests, changing file system) the Casketfile is replaced by a new inode (write + rename): it
+stays unreachable under its own name; a `.gz` sibling that is a hard link of the NEW Casketfile is
+passed over; listing and archive leave both out; a replaced ordinary file is served with its new
+content; the old Casketfile inode, no longer named by the hide list, is not what is protected. -/
+example : Casket.FileServeSeqProofs.RootDir exFS exSite := ⟨⟨[b! "site"], true, 1⟩, by decide, rfl⟩
+open Casket.FileServeSeq in
+example : run exSite exFS [
+    .get mGET (b! "/a") [], .get mGET (b! "/Casketfile") [],
+    .write [b! "site", b! "Casketfile"] 60,
+    .get mGET (b! "/Casketfile") [],
+    .link [b! "site", b! "a.gz"] [b! "site", b! "Casketfile"],
+    .get mGET (b! "/a") (b! "gzip"), .get mGET (b! "/a.gz") [],
+    .get mGET (b! "/") [],
+    .write [b! "site", b! "a"] 20, .remove [b! "site", b! "Casketfile"],
+    .get mGET (b! "/a") [], .get mGET (b! "/a.gz") []]
+  = [.file 2 none, .status 404, .status 404, .file 2 none, .status 404,
+     .listing [b! "a", b! "d"], .file 20 none, .file 60 none] := by decide
+/-- the judge's "hidden" follows the state of the moment: after the replacement the NEW inode 60
+is the hidden one (serving it is `bad:hidden`), the old inode 6 no longer is -/
+example : hidden (Casket.FileServeSeq.applyStep exFS (.write [b! "site", b! "Casketfile"] 60)) exSite 60 = true
+    ∧ hidden (Casket.FileServeSeq.applyStep exFS (.write [b! "site", b! "Casketfile"] 60)) exSite 6 = false
+    ∧ hidden exFS exSite 6 = true := by decide
 
 end Casket.Props.C02
